@@ -68,7 +68,13 @@ class Codec : public ProtobufCodecLite {
   virtual bool parseFromBuffer(StringPiece buf, google::protobuf::Message* message) {
     bool ok = ProtobufCodecLite::parseFromBuffer(buf, message);
     std::string p(buf.data(), buf.size());
-    printf("< verdict %llu %zu %d\n", static_cast<unsigned long long>(fnv64(p)), p.size(), ok ? 1 : 0);
+    // the verdict the model and the reference decoder work with is protobuf's own on the WHOLE payload (a fresh message
+    // of the same type, ParseFromArray: everything must be consumed) - not the answer of the codec's function, which is
+    // code under test; a difference is reported to the oracle
+    std::unique_ptr<google::protobuf::Message> ref(message->New());
+    bool refOk = ref->ParseFromArray(buf.data(), static_cast<int>(buf.size()));
+    if (refOk != ok) printf("# libverdict %d protobuf %d len %zu\n", ok ? 1 : 0, refOk ? 1 : 0, p.size());
+    printf("< verdict %llu %zu %d\n", static_cast<unsigned long long>(fnv64(p)), p.size(), refOk ? 1 : 0);
     if (ok) g_lastPayload = p;
     return ok;
   }
